@@ -13,7 +13,7 @@ Definition mk_plan (ns nd nr : Z) : list lop :=
 
 Definition check_life (prop : Z) (inp impl : sx) : sx :=
   match inp, impl with
-  | L [A 15; A variant; L [A ns; A nd; A nr]; A op; A k; A class], L [A status; A kept; A res_nil; L handles; A fd_leak] =>
+  | L [A 15; A variant; L [A ns; A nd; A nr]; A op; A k; A class], L [A status; A kept; A res_nil; L handles; A fd_leak; A fired] =>
       let f := mkFault (d_lop op) k (d_class class) in
       let cls := 1 + 2 * variant + 16 * op + 128 * class in
       let hs_ok := forallb (fun s => match s with L [A 1; A 1; A 0] => true | _ => false end) handles in
@@ -22,6 +22,7 @@ Definition check_life (prop : Z) (inp impl : sx) : sx :=
         else if status =? 2 then [10; 9]
         else if negb (fd_leak =? 0) then [10; 7]                                   (* a socket the run opened itself (local-address UDP socket, port reservation) is still open after it returned *)
         else if negb hs_ok then [10; 1]                                            (* a handle not closed exactly once, or used after its close / by a goroutine that outlived the call *)
+        else if (status =? 0) && (class =? 0) && (0 <? fired) then [10; 8]          (* a fatal failure of a handle operation was returned to the run, and the run reported success (a partial path) *)
         else if (status =? 1) && (res_nil =? 0) then [10; 3]                       (* an error together with a (partial) result *)
         else if (status =? 0) && (res_nil =? 1) then [10; 3]
         else if (status =? 1) && negb (class =? 2) && (kept =? 0) then [10; 2]      (* the error does not wrap the underlying cause *)
